@@ -62,6 +62,64 @@ theorem C01_bytes_independent_of_schedule (cd : Codec α) (cfg : EncCfg) (evs : 
       simp at ho
     · rw [hdata, owedData, hok, framesOf_eq_spec]
 
+/-- what `EncodeBody::new_server` puts in front of a message's bytes: flag 1 and the compressed
+serialization iff an encoding is configured and the response did not opt out -/
+def serverWire (cd : Codec α) (comp : Option Enc) (ovr : Override) (m : α) : UInt8 × Bytes :=
+  match ovr, comp with
+  | .inherit, some e => (1, cd.cz e (cd.ser m))
+  | _, _ => (0, cd.ser m)
+
+/-- **…with or without the per-response opt-out.**  `C01_bytes_independent_of_schedule` for a
+server body built by `EncodeBody::new_server` from the *configured* encoding and the response's
+`SingleMessageCompressionOverride`: with `Disable` every frame is flag 0 + the plain
+serialization whatever encoding is configured, with `Inherit` flag 1 + the compressed
+serialization iff an encoding is configured — for every schedule, threshold and buffer size. -/
+theorem C01_bytes_independent_of_schedule_and_override (cd : Codec α) (comp : Option Enc) (ovr : Override)
+    (y b : Nat) (mx : Option Nat) (evs : List (SrcEv α))
+    (h : Successful cd (Enc.newServer comp ovr y b mx) evs) (n : Nat) (hn : evs.length + 1 < n) :
+    ∃ pre post, Enc.run cd (Enc.newServer comp ovr y b mx) n Enc.init evs = pre ++ post ∧
+      (∀ o ∈ post, ∀ d, o ≠ .data d) ∧
+      (∀ o ∈ pre, GoodChunk cd (Enc.newServer comp ovr y b mx) o) ∧
+      dataConcat pre = Spec.Framing.frames ((itemsOf evs).map (serverWire cd comp ovr)) := by
+  obtain ⟨pre, post, h1, h2, h3, h4⟩ :=
+    C01_bytes_independent_of_schedule cd (Enc.newServer comp ovr y b mx) evs h n hn
+  refine ⟨pre, post, h1, h2, h3, ?_⟩
+  rw [h4]
+  congr 1
+  apply List.map_congr_left
+  intro m _
+  cases ovr <;> cases comp <;> simp [serverWire, Enc.newServer, flagByte, Framing.payload]
+
+/-- A request body has no opt-out: `EncodeBody::new_client` uses the configured encoding. -/
+theorem C01_client_has_no_override (comp : Option Enc) (y b : Nat) (mx : Option Nat) :
+    (Enc.newClient comp y b mx).comp = comp ∧ (Enc.newClient comp y b mx).server = false := ⟨rfl, rfl⟩
+
+/-- **Any buffer settings.**  For every `buffer_size` — zero included — (1) no poll of the
+encoder panics, (2) every poll result, hence every emitted byte, is what it is for any other
+buffer size, and (3) the `compress` / `decompress` calls, whose reserve computation is the only
+place the buffer size enters (`Framing.reserveCap`, division explicit, panic an outcome), return
+without panicking exactly what the compressor / decompressor returns — which is what the
+decoder model's `Dec.readBody` works with, so the decoded messages do not depend on it either. -/
+theorem C01_buffer_size_irrelevant (cd : Codec α) (cfg : EncCfg) (k : Nat) (n : Nat) (b : BodySt)
+    (evs : List (SrcEv α)) :
+    (∀ o ∈ Enc.run cd { cfg with bufSize := k } n b evs, o ≠ .panic) ∧
+    Enc.run cd { cfg with bufSize := k } n b evs = Enc.run cd cfg n b evs ∧
+    (∀ e raw, compressCall cd k e raw = some (cd.cz e raw)) ∧
+    (∀ e pl, decompressCall cd k e pl = some (cd.dz e pl)) :=
+  ⟨run_ne_panic cd _ n b evs, run_bufSize cd cfg k n b evs, compressCall_eq cd k, decompressCall_eq cd k⟩
+
+/-- **The code as found violated it**: with `buffer_size = 0` the reserve computation of
+`compress` / `decompress` divided by zero for every input length (rev1 §1; repaired by the fix
+commit "a zero buffer_size no longer divides by zero when (de)compressing"; witnesses
+`enc … gzip … 0 … EV i010203` / `dec req gzip none 0 …` stay in the C01 and C07 corpus). -/
+theorem C01_buffer_size_irrelevant_fails :
+    ¬ (∀ (cd : Codec Bytes) (k : Nat) (e : Enc) (raw : Bytes),
+        Found.compressCall cd k e raw = some (cd.cz e raw) ∧
+        Found.decompressCall cd k e raw = some (cd.dz e raw)) := by
+  intro h
+  have := (h { ser := id, de := some, deErr := 13, cz := fun _ b => b, dz := fun _ b => some b } 0 .gzip [1, 2, 3]).1
+  simp [Found.compressCall, Found.reserveCap, udiv] at this
+
 /-- **Any chunking, any readiness pattern decodes to the original messages.**  Let a sender
 frame messages `xs` (each identity or compressed with the negotiated encoding, each within the
 receive limit), and let the body deliver those bytes cut at *arbitrary* positions — `evs` is
